@@ -74,7 +74,12 @@ def run(prop, tier, seed):
     procs = []
     for i in range(nshards):
         out = os.path.join(outdir, f"shard{i}.json")
-        cmd = [python(), "-X", "faulthandler", "-m", "vmon.shard", prop, tier, str(seed), str(i), str(nshards), str(deadline), out]
+        # interpreter configuration is part of the environment the code runs in: the last shard of
+        # every check runs under `python -O` (assert statements stripped, __debug__ False);
+        # VERIF_OPT=all / none overrides
+        optmode = os.environ.get("VERIF_OPT", "last")
+        opt = ["-O"] if (optmode == "all" or (optmode == "last" and nshards > 1 and i == nshards - 1)) else []
+        cmd = [python()] + opt + ["-X", "faulthandler", "-m", "vmon.shard", prop, tier, str(seed), str(i), str(nshards), str(deadline), out]
         log = open(os.path.join(outdir, f"shard{i}.log"), "w")
         procs.append((i, out, log, subprocess.Popen(cmd, cwd=VERIF, env=_env(), stdout=log, stderr=subprocess.STDOUT)))
     dead = []
@@ -244,7 +249,14 @@ def run(prop, tier, seed):
 
 
 def replay(prop, path):
-    cmd = [python(), "-m", "vmon.shard", prop, "--replay", path]
+    opt = []
+    try:
+        with open(path) as f:
+            if '"python_optimize"' in f.read():
+                opt = ["-O"]     # the witness was observed under python -O: replay it the same way
+    except OSError:
+        pass
+    cmd = [python()] + opt + ["-m", "vmon.shard", prop, "--replay", path]
     p = subprocess.run(cmd, cwd=VERIF, env=_env())
     return p.returncode
 
